@@ -2,6 +2,8 @@ import LoraVerif.Model.Mac
 import LoraVerif.Lemmas.ExceptLemmas
 import LoraVerif.Props.C11Codec
 import LoraVerif.Lemmas.Ghost
+import LoraVerif.Lemmas.CycleC
+import LoraVerif.Lemmas.RefineC
 /-!
 # C11 — OTAA join establishes exactly the session the JoinAccept defines
 
@@ -237,6 +239,61 @@ def respOf : Out → String
 example : (run lcg (MacState.init (RegionState.init .EU868) 14 0, 1) demoHistory).toOption.map (fun r => r.2.map respOf) =
     some ["NoJoinAccept", "JoinSuccess", "uplink", "radio error", "not joined"] := by decide +kernel
 
+/-! ## extended histories (`Model/HistoryC.lean`): the join procedure of the async front-end, both classes
+
+A Class C device listens on the RXC parameters while it waits for RX1 and RX2 of a join procedure as
+well.  Whatever it hears there (`c1`, `c2`: any frames) plays no part (`stepC_joinC_plain`): the
+procedure is the plain `joinOtaa` with the fault position `joinFaultC` (radio faults only), so
+`JoinStep` holds of it. -/
+
+theorem stepC_join {σ} (g : Rng σ) (m m' : MacState) (rs rs' : σ) (cc : Bool) (fault : Option FaultPos)
+    (c1 : List (RxView × Int)) (rx1 : Option (RxView × Int)) (c2 : List (RxView × Int)) (rx2 : Option (RxView × Int)) (out : OutC)
+    (h : stepC g (m, rs) (.joinC cc fault c1 rx1 c2 rx2) = .ok ((m', rs'), out)) :
+    JoinStep g m rs (joinFaultC fault rx1) rx1 rx2 m' out.out :=
+  step_join g m m' rs rs' _ rx1 rx2 0 0 out.out (stepC_joinC_plain g _ _ cc fault c1 rx1 c2 rx2 out h).1
+
+/-- **C11 over every extended history**: at EVERY join procedure of every extended history — either
+class, whatever is heard on the RXC parameters between the windows, after any number of failed
+attempts, from a joined state, after radio faults — `JoinStep` holds between the state before and the
+state after: joined exactly upon an authentic JoinAccept heard in a served window, with exactly the
+session it defines; otherwise `NoJoinAccept` (or the radio error), not joined, configuration untouched. -/
+theorem historyC_join {σ} (g : Rng σ) (m : MacState) (rs : σ) (evs : List EvC) (ms' : MacState × σ) (outs : List OutC)
+    (h : runC g (m, rs) evs = .ok (ms', outs)) (i : Nat) (mpc : Nat) (cc : Bool) (fault : Option FaultPos)
+    (c1 : List (RxView × Int)) (rx1 : Option (RxView × Int)) (c2 : List (RxView × Int)) (rx2 : Option (RxView × Int)) (out : OutC)
+    (hi : ((annotC g (m, rs) evs).zip outs)[i]? = some ((mpc, .joinC cc fault c1 rx1 c2 rx2), out)) :
+    ∃ mi rsi mi' rsi', ChainC g (m, rs) (((annotC g (m, rs) evs).zip outs).take i) (mi, rsi) ∧
+      ChainC g (mi', rsi') (((annotC g (m, rs) evs).zip outs).drop (i + 1)) ms' ∧
+      JoinStep g mi rsi (joinFaultC fault rx1) rx1 rx2 mi' out.out := by
+  have hc := runC_chain g (m, rs) ms' evs outs h
+  obtain ⟨⟨mi, rsi⟩, ⟨mi', rsi'⟩, h1, _, hstep, h2⟩ := chainC_at g (m, rs) ms' _ i _ out hc hi
+  exact ⟨mi, rsi, mi', rsi', h1, h2, stepC_join g mi mi' rsi rsi' cc fault c1 rx1 c2 rx2 out hstep⟩
+
+/-- **C11 on the async front-end, for EVERY script, both classes**: a session that returns is a run of
+its extended history (outputs = the front-end's answers, `ObsRel`), and `JoinStep` holds at every join
+procedure of it -/
+theorem asyncC_join {σ} (g : Rng σ) (cfg : DevCfg) (d : DevRun) (rs : σ) (ops : List AsyncOp)
+    (obs : List OpObs) (d' : DevRun) (rs' : σ) (h : asyncOps g cfg d rs ops = .ok (obs, d', rs')) :
+    ∃ outs, runC g (d.m, rs) (abstractSessionC cfg ops) = .ok ((d'.m, rs'), outs) ∧ AllRel ObsRel obs outs ∧
+      ∀ i mpc cc fault c1 rx1 c2 rx2 out,
+        ((annotC g (d.m, rs) (abstractSessionC cfg ops)).zip outs)[i]? = some ((mpc, .joinC cc fault c1 rx1 c2 rx2), out) →
+        ∃ mi rsi mi', ChainC g (d.m, rs) (((annotC g (d.m, rs) (abstractSessionC cfg ops)).zip outs).take i) (mi, rsi) ∧
+          JoinStep g mi rsi (joinFaultC fault rx1) rx1 rx2 mi' out.out := by
+  obtain ⟨outs, hrun, hobs⟩ := asyncOps_runC g cfg d rs ops obs d' rs' h
+  refine ⟨outs, hrun, hobs, ?_⟩
+  intro i mpc cc fault c1 rx1 c2 rx2 out hi
+  obtain ⟨mi, rsi, mi', rsi', h1, _, hj⟩ := historyC_join g d.m rs _ _ outs hrun i mpc cc fault c1 rx1 c2 rx2 out hi
+  exact ⟨mi, rsi, mi', h1, hj⟩
+
+/-! non-vacuity: a Class C device; a failed attempt with noise between the windows, then a join accepted
+in RX2 although frames were heard on the RXC parameters before RX1 and before RX2 -/
+def demoHistoryC : List EvC :=
+  [ .joinC true none [(.garbage, 0)] jaBad [] none,
+    .joinC true none [(.garbage, 0), (.joinAccept ja, 1)] none [(.garbage, 2)] jaOk,
+    .uplinkC true [1] 1 false none [] none [] none ]
+
+example : (runC lcg (MacState.init (RegionState.init .EU868) 14 0, 1) demoHistoryC).toOption.map (fun r => r.2.map (fun o => respOf o.out)) =
+    some ["NoJoinAccept", "JoinSuccess", "uplink"] := by decide +kernel
+
 end C11
 
 #print axioms C11.accept_spec
@@ -250,3 +307,6 @@ end C11
 #print axioms C11.session_keys
 #print axioms C11.step_join
 #print axioms C11.history_join
+#print axioms C11.stepC_join
+#print axioms C11.historyC_join
+#print axioms C11.asyncC_join
